@@ -149,6 +149,9 @@ fn queries_case<K: Kern<D>, const D: usize>(cx: &mut Ctx, r: &mut Rng, idx: usiz
     if !op_conflict_batch(&mut cx.tr, 0, &dt, &cq) {
         return;
     }
+    if !op_extend_hull_batch(&mut cx.tr, 0, &dt, &cq) {
+        return;
+    }
     // C11: hull creation, queries, then one mutating op of each kind followed by queries
     let Some(hull) = op_hull_create(&mut cx.tr, 0, &dt) else { return };
     let hq: Vec<Vec<i64>> = qs.iter().take(if cx.thorough { 120 } else { 40 }).cloned().collect();
